@@ -481,7 +481,20 @@ def timezone_name(dt, version=LATEST_VER):
     # Easy case: pytz timezone.
     try:
         tz_name = dt.tzinfo.zone
-        return tz_rmap[tz_name]
+        haystack_name = tz_rmap[tz_name]
+        # The zone only describes the value if its offset at that instant is
+        # the value's offset.  It is not for a pytz zone attached with
+        # tzinfo= (first, LMT, offset), for a skipped local time out of
+        # localize() or after arithmetic without normalize(): those take the
+        # hard case below, like any other tzinfo.
+        try:
+            at_instant = dt.astimezone(pytz.utc).astimezone(
+                    pytz.timezone(tz_name))
+        except OverflowError:
+            # instant not representable in UTC, nothing to compare with
+            return haystack_name
+        if at_instant.utcoffset() == dt.utcoffset():
+            return haystack_name
     except KeyError:
         # Not in timezone map
         pass
@@ -500,8 +513,11 @@ def timezone_name(dt, version=LATEST_VER):
     for olson_name, haystack_name in list(tz_rmap.items()):
         # Compare offsets at the instant (not at the naive wall time, which
         # may be ambiguous or non-existent in the candidate zone).
+        # (by way of UTC: astimezone() to the tzinfo object the value already
+        # carries would hand the value back unchanged)
         try:
-            candidate = dt.astimezone(pytz.timezone(olson_name))
+            candidate = dt.astimezone(pytz.utc).astimezone(
+                    pytz.timezone(olson_name))
         except OverflowError:
             continue
         if candidate.utcoffset() == offset:
